@@ -81,6 +81,7 @@ def corpus():
         # C struct sequences: field names are read off repr(value), which cannot be parsed when an element's repr is not an expression (F19)
         time.struct_time((2020, 1, 2, 3, 4, 5, 3, 2, -1)), time.struct_time((Unregistered(), 1, 2, 3, 4, 5, 3, 2, -1)),
         [time.struct_time((1999, 12, 31, 23, 59, 59, 4, 365, 0))], os.terminal_size((80, 24)), sys.float_info,
+        pathlib.PurePosixPath('//fileserver/projects/' + 'segment/' * 9 + 'end'),
         # predicate printers: the first-registered accepting predicate wins, whatever was printed before
         Marked('a'), Marked('b'), Marked('ab'), [Marked('ba'), Marked('b')], Marked('c'),
     ]
